@@ -253,7 +253,8 @@ def _check_main(ctx, res) -> None:
 
     # ---- R01.6 renaming a module keeps its kind: '.py' is appended exactly when the resource is a file, and the new
     # location is built from the resource's own parent
-    rm = idx.need_func("rope.refactor.rename.Rename._rename_module")
+    from .common import rename_module_step
+    rm = rename_module_step(idx)
     cfg = CFG(rm.node)
     ext = [n for n in cfg.nodes if n.kind == "stmt" and isinstance(n.ast, (ast.Assign, ast.AugAssign)) and any(
         isinstance(x, ast.Constant) and x.value == ".py" for x in ast.walk(n.ast))]
@@ -320,7 +321,7 @@ def _file_follows_its_own_name_only_rule(ctx, res) -> None:
     cfg = CFG(node)
     n = 0
     for nd in cfg.nodes:
-        if nd.ast is None or nd.kind not in ("stmt", "test") or not any(call_name(c) in ("_rename_module", "MoveResource") for c in calls_in(nd.ast)):
+        if nd.ast is None or nd.kind not in ("stmt", "test") or not any(call_name(c) in (common.rename_module_step(idx).name, "MoveResource") for c in calls_in(nd.ast)):
             continue
         n += 1
         gs = common.plain_guards(cfg, nd.id)
